@@ -15,6 +15,8 @@ C = {
          "TLA+ Encode/ByteLen templates vs. real encoder/decoder (Trace_Ast)"),
  "C05": ("types-pipeline", "model_checking", "every type rule evaluated by the real library over explicit child types (all 960 values of the last child per row) compared cell-by-cell with the specification tables in MsSpec.tla; exhaustive over reachable child types in thorough; plus Miniscript::ty of every enumerated AST", "5/C05",
          "TLA+ SpecType tables vs. library rule functions on the complete finite domain (Trace_Types, Trace_Ast)"),
+ "C06": ("typesound-pipeline", "model_checking", "for every well-typed fragment up to the node bound the real encoded script is executed by the TLA+ VM from every input stack up to the length bound over an adversarial alphabet; z/o/n/u/d/f/s and B/V/K/W shape predictions of the real Miniscript::ty are checked on the runs; MC_TypeSound proves the same for the specification's own tables", "5/C06",
+         "exhaustive bounded execution in the TLA+ Script VM of real encoded scripts vs. real type flags (Trace_TypeSound + MC_TypeSound lemma)"),
  "C07": ("ast-pipeline", "model_checking", "Eval(lift(ms), w) = (SatSet(ms, w) # {}) for every enumerated B miniscript and every relevant world", "5/C07",
          "TLA+ policy truth function vs. SatSet on the library's lift output (Trace_Ast)"),
  "C10": ("ast-pipeline", "model_checking", "parser-built AST = written AST, print->parse equality and print fixpoint for every enumerated miniscript in 4 contexts (descriptor/policy/key/checksum parts: not yet)", "5/C10",
@@ -25,6 +27,7 @@ C = {
          "structural identity of abstract ASTs (TLA+ Gen_Pairs) vs. library Eq/Ord/Hash matrix (Trace_Eq)"),
 }
 ENG = {
+ "typesound-pipeline": ("bin/check (run_typesound)", "TLC Gen_Ast -> msverif ast -> TLC Trace_TypeSound + MC_TypeSound"),
  "pairs-pipeline": ("bin/pipe_generic.py", "TLC Gen_Pairs -> msverif pairs -> TLC Trace_Eq"),
  "sat-pipeline": ("bin/pipe_sat.py", "TLC Gen_Sat -> msverif sat (real library + alpha) -> TLC Trace_Sat + MC_SatSet"),
  "ast-pipeline": ("bin/pipe_ast.py", "TLC Gen_Ast -> msverif ast -> TLC Trace_Ast"),
